@@ -5,9 +5,11 @@ package c19
 import (
 	"bytes"
 	"fmt"
+	"os"
 	"sort"
 	"strings"
 	"sync"
+	"time"
 
 	"github.com/gopherjs/gopherjs/compiler"
 
@@ -17,8 +19,21 @@ import (
 // Run is the C19 check.
 func Run(c *core.Ctx) int {
 	sink := &failSink{}
-	ss := runStreams(c, sink)
-	ps := runPrograms(c, sink)
+	t0 := time.Now()
+	only := os.Getenv("VERIF_C19_ONLY") // development aid: "streams" or "programs"
+	ss := &streamStats{classes: map[string]int{}}
+	if only != "programs" {
+		ss = runStreams(c, sink)
+	}
+	t1 := time.Now()
+	ps := &progTotals{templates: map[string]int{}}
+	ps.distinct, ps.kinds = map[string]bool{}, map[string]bool{}
+	if only != "streams" {
+		ps = runPrograms(c, sink)
+	}
+	if os.Getenv("VERIF_DEBUG") != "" {
+		fmt.Fprintf(os.Stderr, "c19: streams %.1fs programs %.1fs\n", t1.Sub(t0).Seconds(), time.Since(t1).Seconds())
+	}
 	sink.report(c)
 
 	evaluations := ss.filterRuns + ss.wsStreams + ps.probesNode + ps.probesOwn + ps.mappings
@@ -155,7 +170,7 @@ func calibrate(c *core.Ctx, sink *failSink) string {
 	stream, _ := flatten(items)
 	obs := runFilter(m, stream, nil, false)
 	if obs.err != "" || len(obs.tuples) != 1 {
-		sink.add(failure{"0000/calibrate", "stream/calibration", "calibration stream (\"é😀\" + position hint + \"x\") did not produce exactly one mapping: " + obs.err, nil})
+		sink.add(mkFail("0000/calibrate", "stream/calibration", "calibration stream (\"é😀\" + position hint + \"x\") did not produce exactly one mapping: "+obs.err, nil))
 		return "unknown"
 	}
 	switch obs.tuples[0].GenCol {
@@ -166,7 +181,7 @@ func calibrate(c *core.Ctx, sink *failSink) string {
 	case 2:
 		return "codepoints"
 	}
-	sink.add(failure{"0000/calibrate", "stream/calibration", fmt.Sprintf("calibration stream: generated column %d is neither the byte offset 6 nor the UTF-16 offset 3", obs.tuples[0].GenCol), nil})
+	sink.add(mkFail("0000/calibrate", "stream/calibration", fmt.Sprintf("calibration stream: generated column %d is neither the byte offset 6 nor the UTF-16 offset 3", obs.tuples[0].GenCol), nil))
 	return "unknown"
 }
 
@@ -268,12 +283,12 @@ func streamBatch(c *core.Ctx, sink *failSink, st *streamStats, bi, n int, conven
 				if strings.Contains(obs.err, "io.Writer contract") {
 					key = "stream/write-count"
 				}
-				sink.add(failure{ord, key, fmt.Sprintf("stream %d/%d written with cuts %v: %s", bi, si, cut, obs.err), bundle(cut, obs)})
+				sink.add(mkFail(ord, key, fmt.Sprintf("stream %d/%d written with cuts %v: %s", bi, si, cut, obs.err), bundle(cut, obs)))
 				break
 			}
 			st.bytesCompared += len(obs.out)
 			if !bytes.Equal(obs.out, res.out) {
-				sink.add(failure{ord, "stream/output-bytes", fmt.Sprintf("stream %d/%d written with cuts %v: output differs from the hint-free bytes: %s", bi, si, cut, firstByteDiff(obs.out, res.out)), bundle(cut, obs)})
+				sink.add(mkFail(ord, "stream/output-bytes", fmt.Sprintf("stream %d/%d written with cuts %v: output differs from the hint-free bytes: %s", bi, si, cut, firstByteDiff(obs.out, res.out)), bundle(cut, obs)))
 				break
 			}
 			got := append([]mapTuple(nil), obs.tuples...)
@@ -284,7 +299,7 @@ func streamBatch(c *core.Ctx, sink *failSink, st *streamStats, bi, n int, conven
 				if ci > 0 && tuplesEqualSorted(whole.tuples, exp) {
 					key = "stream/mappings-depend-on-chunking"
 				}
-				sink.add(failure{ord, key, fmt.Sprintf("stream %d/%d written with cuts %v (columns in %s): %s", bi, si, cut, convention, firstTupleDiff(exp, got)), bundle(cut, obs)})
+				sink.add(mkFail(ord, key, fmt.Sprintf("stream %d/%d written with cuts %v (columns in %s): %s", bi, si, cut, convention, firstTupleDiff(exp, got)), bundle(cut, obs)))
 				break
 			}
 		}
@@ -311,9 +326,9 @@ func streamBatch(c *core.Ctx, sink *failSink, st *streamStats, bi, n int, conven
 					if ok {
 						gotS = fmt.Sprintf("%s:%d", whole.smap.Sources[seg.Src], seg.OrigLine)
 					}
-					sink.add(failure{fmt.Sprintf("%s/%06d", ord, len(stream)), "stream/utf16-columns",
+					sink.add(mkFail(fmt.Sprintf("%s/%06d", ord, len(stream)), "stream/utf16-columns",
 						fmt.Sprintf("stream %d/%d: the character following hint #%d is at generated %d:%d in UTF-16 units (byte offset %d); looking that position up in the map gives %s, the hint says %s:%d — generated columns are byte offsets, consumers count UTF-16 code units", bi, si, i, ut.GenLine, ut.GenCol, bt.GenCol, gotS, bt.Src, bt.OLine),
-						bundle(nil, whole)})
+						bundle(nil, whole)))
 					break
 				}
 			}
@@ -368,14 +383,14 @@ func wsBatch(c *core.Ctx, sink *failSink, st *streamStats, bi, n int, convention
 		}()
 		bundle := map[string]string{"input.bin": string(in), "input.quoted.txt": fmt.Sprintf("%q\n", in), "output.quoted.txt": fmt.Sprintf("%q\n", out), "fileset.txt": describeFS(m)}
 		if perr != "" {
-			sink.add(failure{ord, "ws/panic", fmt.Sprintf("whitespace stream %d/%d: removeWhitespace failed: %s", bi, si, perr), bundle})
+			sink.add(mkFail(ord, "ws/panic", fmt.Sprintf("whitespace stream %d/%d: removeWhitespace failed: %s", bi, si, perr), bundle))
 			continue
 		}
 		st.wsRemoved += len(in) - len(out)
 		_, hin, _, err1 := parseHints(in)
 		_, hout, _, err2 := parseHints(out)
 		if err1 != nil || err2 != nil {
-			sink.add(failure{ord, "ws/hints-damaged", fmt.Sprintf("whitespace stream %d/%d: hints cannot be re-parsed after removal: %v %v", bi, si, err1, err2), bundle})
+			sink.add(mkFail(ord, "ws/hints-damaged", fmt.Sprintf("whitespace stream %d/%d: hints cannot be re-parsed after removal: %v %v", bi, si, err1, err2), bundle))
 			continue
 		}
 		st.wsHints += len(hin)
@@ -384,13 +399,13 @@ func wsBatch(c *core.Ctx, sink *failSink, st *streamStats, bi, n int, convention
 			same = bytes.Equal(hin[i], hout[i])
 		}
 		if !same {
-			sink.add(failure{ord, "ws/hints-lost", fmt.Sprintf("whitespace stream %d/%d: %d hints before removeWhitespace, %d after (or their bytes changed)", bi, si, len(hin), len(hout)), bundle})
+			sink.add(mkFail(ord, "ws/hints-lost", fmt.Sprintf("whitespace stream %d/%d: %d hints before removeWhitespace, %d after (or their bytes changed)", bi, si, len(hin), len(hout)), bundle))
 			continue
 		}
 		ain, sin, e1 := canon(in)
 		aout, sout, e2 := canon(out)
 		if e1 != nil || e2 != nil {
-			sink.add(failure{ord, "ws/tokens-changed", fmt.Sprintf("whitespace stream %d/%d: cannot tokenise: %v %v", bi, si, e1, e2), bundle})
+			sink.add(mkFail(ord, "ws/tokens-changed", fmt.Sprintf("whitespace stream %d/%d: cannot tokenise: %v %v", bi, si, e1, e2), bundle))
 			continue
 		}
 		if strings.Join(ain, "\x00") != strings.Join(aout, "\x00") {
@@ -398,7 +413,7 @@ func wsBatch(c *core.Ctx, sink *failSink, st *streamStats, bi, n int, convention
 			for k < len(ain) && k < len(aout) && ain[k] == aout[k] {
 				k++
 			}
-			sink.add(failure{ord, "ws/tokens-changed", fmt.Sprintf("whitespace stream %d/%d: the sequence of tokens and hints changed at atom %d (hints must stay in place relative to the surviving tokens)", bi, si, k), bundle})
+			sink.add(mkFail(ord, "ws/tokens-changed", fmt.Sprintf("whitespace stream %d/%d: the sequence of tokens and hints changed at atom %d (hints must stay in place relative to the surviving tokens)", bi, si, k), bundle))
 			continue
 		}
 		// tokens that needed a separator still have one
@@ -412,7 +427,7 @@ func wsBatch(c *core.Ctx, sink *failSink, st *streamStats, bi, n int, convention
 				x, y := ain[prevSig], a
 				lx, fy := x[len(x)-1], y[0]
 				if isIdentByte(lx) && isIdentByte(fy) || lx == '-' && fy == '-' {
-					sink.add(failure{ord, "ws/separator-lost", fmt.Sprintf("whitespace stream %d/%d: tokens %q and %q were separated and are glued together after removeWhitespace", bi, si, x, y), bundle})
+					sink.add(mkFail(ord, "ws/separator-lost", fmt.Sprintf("whitespace stream %d/%d: tokens %q and %q were separated and are glued together after removeWhitespace", bi, si, x, y), bundle))
 					bad = true
 					break
 				}
@@ -453,7 +468,7 @@ func wsBatch(c *core.Ctx, sink *failSink, st *streamStats, bi, n int, convention
 			sortTuples(got)
 			st.mappingsCompared += len(got)
 			if obs.err != "" || !bytes.Equal(obs.out, res.out) || !tuplesEqual(exp, got) {
-				sink.add(failure{ord, "ws/mappings", fmt.Sprintf("whitespace stream %d/%d after removeWhitespace, cuts %v: %s %s", bi, si, cut, obs.err, firstTupleDiff(exp, got)), bundle})
+				sink.add(mkFail(ord, "ws/mappings", fmt.Sprintf("whitespace stream %d/%d after removeWhitespace, cuts %v: %s %s", bi, si, cut, obs.err, firstTupleDiff(exp, got)), bundle))
 				break
 			}
 		}
@@ -482,9 +497,9 @@ func sourceNameExperiment(c *core.Ctx, sink *failSink, st *streamStats) {
 		st.filterRuns++
 		st.classes["sibling"]++
 		if obs.err != "" || !tuplesEqualSorted(obs.tuples, res.byteCols) && !tuplesEqualSorted(obs.tuples, res.u16Cols) {
-			sink.add(failure{"0003/" + f.name, "source-name/string-prefix-of-" + map[bool]string{true: "gopath", false: "goroot"}[strings.HasPrefix(f.name, modelGP1)],
+			sink.add(mkFail("0003/"+f.name, "source-name/string-prefix-of-"+map[bool]string{true: "gopath", false: "goroot"}[strings.HasPrefix(f.name, modelGP1)],
 				fmt.Sprintf("file %s lies outside GOROOT (%s) and GOPATH (%s) and must be named %q in the map; observed mappings %v %s", f.name, m.goroot, m.gopath, m.sourceName(f, false), obs.tuples, obs.err),
-				map[string]string{"fileset.txt": describeFS(m), "stream.items.txt": describeItems(items)}})
+				map[string]string{"fileset.txt": describeFS(m), "stream.items.txt": describeItems(items)}))
 		}
 	}
 }
@@ -499,7 +514,7 @@ type progTotals struct {
 }
 
 func runPrograms(c *core.Ctx, sink *failSink) *progTotals {
-	n := c.N(26, 600)
+	n := c.N(24, 600)
 	t := &progTotals{templates: map[string]int{}}
 	t.distinct = map[string]bool{}
 	t.kinds = map[string]bool{}
@@ -516,7 +531,11 @@ func runPrograms(c *core.Ctx, sink *failSink) *progTotals {
 	var mu sync.Mutex
 	c.Parallel(n, func(i int) {
 		p := progs[i]
-		st := checkProgram(c, i+10, p, sink, 2)
+		nu := 0
+		if i%2 == 0 {
+			nu = 1 // uncaught-mode probes (one process per probe) on every other program
+		}
+		st := checkProgram(c, i, p, sink, nu)
 		mu.Lock()
 		defer mu.Unlock()
 		if !st.compiled {
@@ -537,6 +556,8 @@ func runPrograms(c *core.Ctx, sink *failSink) *progTotals {
 		t.ambiguousPos += st.ambiguousPos
 		t.viaIncChecked += st.viaIncChecked
 		t.colBeyondU16 += st.colBeyondU16
+		t.nodeLastSegQuirk += st.nodeLastSegQuirk
+		t.noPanic += st.noPanic
 		for k := range st.distinct {
 			t.distinct[k] = true
 		}
